@@ -1,17 +1,85 @@
 package c10
 
 import (
+	"fmt"
 	"os"
+	"os/exec"
+	"path/filepath"
+	"regexp"
+	"strings"
 	"testing"
 
 	"verif/harness/internal/vk"
 )
+
+// child is true in the preflight process (see preflight).
+var child = os.Getenv("VERIF_C10_CHILD") != ""
+
+// skipConcurrent is set when the preflight child died of a process-fatal error in the concurrent
+// workload: the error is reported as a violation and the in-process concurrent families are skipped
+// (they would take the whole check down with them).
+var skipConcurrent bool
+
+var digits = regexp.MustCompile(`[0-9]+`)
+
+// preflight runs the concurrent families once in a child process. The Go runtime turns some
+// unsynchronised accesses ("concurrent map writes") into process-fatal errors that no recover()
+// can intercept; in a child they are attributed to the workload instead of killing the check.
+func preflight() {
+	tmp, err := os.MkdirTemp("", "c10pre")
+	if err != nil {
+		return
+	}
+	defer os.RemoveAll(tmp)
+	cmd := exec.Command(os.Args[0], "-test.run", "^TestConcurrent", "-test.count=1", "-test.timeout=0")
+	cmd.Env = append(os.Environ(), "VERIF_C10_CHILD=1", "VERIF_EVIDENCE="+filepath.Join(tmp, "ev.json"), "GORACE=halt_on_error=0 log_path="+filepath.Join(tmp, "race"))
+	out, _ := cmd.CombinedOutput()
+	txt := string(out)
+	if strings.Contains(txt, "SUMMARY property=C10") {
+		run.Count("preflight_child_completed", 1)
+		return
+	}
+	lines := strings.Split(txt, "\n")
+	for i, l := range lines {
+		if strings.HasPrefix(l, "fatal error: ") || strings.HasPrefix(l, "panic: ") {
+			cls := digits.ReplaceAllString(strings.TrimSpace(l), "N")
+			if len(cls) > 100 {
+				cls = cls[:100]
+			}
+			end := i + 80
+			if end > len(lines) {
+				end = len(lines)
+			}
+			skipConcurrent = true
+			run.Violation("nat (concurrent callers)", "no-process-fatal-error", cls,
+				fmt.Sprintf("the concurrent alloc/dealloc/lookup workload killed the process: %s", strings.TrimSpace(l)), lines[i:end])
+			return
+		}
+	}
+	run.Inconclusive("preflight", "child process running the concurrent families ended without a summary and without a recognisable fatal error")
+}
 
 func TestMain(m *testing.M) {
 	run = vk.Start("C10", "exploration")
 	run.Rule("alloc/dealloc histories against a fresh nat.Manager+nat.Logger per history: every sequence of the stated depth over <=6 subscribers (up to subscriber renaming) for each (port range, block size, #public addresses) configuration, seeded random walks of 100-1000 ops over up to 140 subscribers with lookups/stats/flushes/virtual-time jumps, and concurrent histories (allocate-only, mixed with one driver per subscriber, several callers racing on the same private address) under -race; non-trivial = distinct sequential history in which a block was released while a higher block on the same public address was live and a later allocation succeeded on that address (release-from-the-middle then allocate), or a concurrent history with >=2 overlapping calls")
 	run.Assume("a subscriber is identified by its private IPv4 address (the key of AllocateNAT/DeallocateNAT); the log reader may use the configured block size but no manager state; blocks are inclusive [PortStart, PortEnd]")
 	run.Assume("the nat.Logger is attached with Manager.SetLogger and writes JSON; other formats and file rotation are not judged")
+	// floors: far below what the quick tier observes; falling under them means the harness could not judge
+	for k, n := range map[string]int64{
+		"op_alloc_new": 20000, "op_dealloc_held": 10000, "allocations_after_middle_release": 2000,
+		"attribution_probes_in_order": 500000, "attribution_probes_by_time": 1000000, "instants_judged_by_time": 50000,
+		"log_port_block_assign": 10000, "log_allocate": 10000, "log_port_block_release": 4000, "log_deallocate": 4000,
+		"concurrent_ops": 5000, "overlapping_calls": 500, "same_ip_racing_alloc_pairs": 50, "porcupine_checks": 100,
+	} {
+		if !child {
+			run.Floor(k, n)
+		}
+	}
+	if child {
+		run.Rule("preflight child")
+	} else {
+		preflight()
+	}
 	code := m.Run()
 	run.JudgeRaces(anchored)
 	ec := run.Finish()
